@@ -79,13 +79,15 @@ Theorem cs_exact_complete : forall t0 c sv ad life ops n mbf e,
 Proof. exact exact_complete. Qed.
 Print Assumptions cs_exact_complete.
 
-(* The CanBePrefix answers: findMatchingDataCSPrefix (Model.dfs: own entry, else the children in whatever order the Go map
-   yields — `ord` is any reordering) answers inside the flat candidate list used by find_cs, and answers nil only when that
-   list is empty; so cs_sound / cs_bytes_latest above cover the code's search for every map iteration order. *)
+(* The CanBePrefix answers.  find_cs admits ANY cached packet that extends the Interest name and is fresh enough
+   (prefix_cands: exactly what the property demands; cs_sound / cs_bytes_latest are about that whole set, so they hold for
+   whatever choice an implementation makes).  The pinned findMatchingDataCSPrefix (Model.dfs: own entry, else the children in
+   whatever order the Go map yields - `ord` is any reordering) answers inside it - more precisely inside dfs_cands, the matching
+   entries with no acceptable entry strictly above them - and answers nil only when no matching fresh entry exists at all. *)
 Theorem cs_tree_flat_equiv : forall t0 c sv ad life ops n mbf ord,
   let s := run (start t0 c sv ad life) ops in
   (forall l x, In x (ord l) <-> In x l) -> In n (paths (nodes s)) ->
-  (forall fuel e, dfs ord s mbf fuel n = Some e -> In e (prefix_cands s n mbf)) /\
+  (forall fuel e, dfs ord s mbf fuel n = Some e -> In e (dfs_cands s n mbf) /\ In e (prefix_cands s n mbf)) /\
   (dfs ord s mbf (depth_of s) n = None -> prefix_cands s n mbf = []).
 Proof. exact (fun t0 c sv ad life ops n mbf ord => tree_flat_equiv _ n mbf ord (reach_inv t0 c sv ad life ops)). Qed.
 Print Assumptions cs_tree_flat_equiv.
